@@ -92,3 +92,10 @@ add("C03", "exploration", [
     {"name": "c03-enum", "bin": "exec", "pkg": "./exec", "run": "^TestVerifC03(EvalEnum|KnownS5)$", "tool": "go1.26.8",
      "shards": {"quick": 8, "thorough": 16}, "timeout": {"quick": 600, "thorough": 3000}},
 ])
+
+add("C18", "exploration", [
+    {"name": "c18-funcs", "bin": "c18", "pkg": ZZ + "c18", "run": "^TestVerifC18FunctionConstructors$",
+     "shards": {"quick": 8, "thorough": 16}, "timeout": {"quick": 600, "thorough": 3000}},
+    {"name": "c18-slices", "bin": "c18", "pkg": ZZ + "c18", "run": "^TestVerifC18SliceConstructors$",
+     "shards": {"quick": 1, "thorough": 1}, "timeout": {"quick": 600, "thorough": 3000}},
+])
